@@ -175,6 +175,10 @@ class Runner(object):
             self.disagree(step, 'interpretable behaviour', list(w.problems))
             w.problems = []
             return False
+        if step[0] == 'pollSelect' and not (self.compare and self.agree) and self.agree:
+            # a prefix that is replayed without comparison (exhaustive stream, replay): ORDER BY ties
+            # must still be resolved as the model does, else the rest of the run follows another order
+            self._ties(step[1], self.model_state())
         if self.compare and self.agree:
             m = self.model_state()
             self.model = m
